@@ -598,6 +598,37 @@ func (x *Exec) evalCall(env *SpecEnv, e *spec.Call) SVal {
 			specFail("isptr: %v", err)
 		}
 		return SVal{T: smt.Eq(TypeOf(arg(1).T), smt.IntC(int64(E.TypeTag(types.NewPointer(gt)))))}
+	case "fcall":
+		// fcall("Field", fn, args...): result of calling the function value held in struct field Field
+		sl, ok := e.Args[0].(*spec.StrLit)
+		if !ok {
+			specFail("fcall: first argument must be a field name string")
+		}
+		var fc *FieldContract
+		for v, c := range E.FieldContracts {
+			if v.Name() == sl.Val {
+				fc = c
+			}
+		}
+		if fc == nil || !fc.Pure {
+			specFail("fcall: no pure field contract for %s", sl.Val)
+		}
+		var as []*smt.Term
+		for i := 1; i < len(e.Args); i++ {
+			as = append(as, arg(i).T)
+		}
+		rt := fc.Sig.Results().At(0).Type()
+		return SVal{T: smt.App(fmt.Sprintf("fieldfn$%s$%d", fc.Field.Name(), 0), E.SortOf(rt), as...), GT: rt}
+	case "deref":
+		v := arg(0)
+		pt, ok := v.GT.Underlying().(*types.Pointer)
+		if !ok {
+			specFail("deref of non-pointer")
+		}
+		h, _ := E.boxHeap(pt.Elem())
+		t := smt.Select(env.heap(h), v.T)
+		x.typeFacts(env.S, t, pt.Elem(), 0)
+		return SVal{T: t, GT: pt.Elem()}
 	case "mapHas":
 		m, k := arg(0), arg(1)
 		if m.GT == nil {
